@@ -303,7 +303,7 @@ pub fn scenarios(_tier: &str) -> Vec<Scenario> {
 
 pub fn bound(sc: &Scenario, tier: &str) -> u32 {
     if tier == "thorough" {
-        if sc.name.starts_with("C:") || sc.name.starts_with("D:") { 3 } else { 3 }
+        if sc.name.starts_with("C:") || sc.name.starts_with("D:") { 4 } else { 4 }
     } else {
         2
     }
